@@ -176,6 +176,9 @@ def run_impl(c, memo=None):
         cw = warnings.catch_warnings()
         strict.enter_context(cw)
         warnings.simplefilter("error")
+    if c.get("prelude"):
+        from . import prelude
+        prelude.run1d(c, ca, memo_value(memo if memo is not None else c["memo"]))
     try:
       with strict:
         out.res = cpl.evolve(ca, timesteps=np_scalar(ts, c.get("npform")) if "T" in c else ts,
